@@ -456,7 +456,13 @@ class Context:
     def _create_error_constructor(self, error_name: str) -> JSCallableObject:
         """Create an Error constructor (Error, TypeError, SyntaxError, etc.)."""
         # Add prototype first so it can be captured in closure
-        error_prototype = JSObject()
+        # (TypeError.prototype etc. inherit from Error.prototype)
+        parent = self._globals.get("Error") if error_name != "Error" else None
+        parent_prototype = parent.get("prototype") if parent is not None else None
+        if not isinstance(parent_prototype, JSObject):
+            object_constructor = self._globals.get("Object")
+            parent_prototype = getattr(object_constructor, "_prototype", None)
+        error_prototype = JSObject(parent_prototype)
         error_prototype.set("name", error_name)
         error_prototype.set("message", "")
 
